@@ -1,4 +1,5 @@
 import ZenonVerif.Model.Num
+import ZenonVerif.Gen.HashFields
 /-
 L9 `Codec` (part 3) — the number / string forms used by the JSON marshalling of account blocks.
 Stands for chain/nom/account_block.go {ToNomMarshalJson: `ab.Amount.String()`, `hex.EncodeToString(ab.Nonce.Data[:])`;
@@ -50,5 +51,30 @@ def nonceUnmarshalText (s : List Char) : Option Bytes :=
   match ofHexChars s with
   | none => none
   | some b => if b.length = 8 then some b else none
+
+/-- reviewed copy of the composite literal of `(ab *AccountBlock) ToNomMarshalJson()`: which text form every
+    field takes in JSON (amount: decimal string, nonce: hex string, everything else by its own marshaller) -/
+def reviewed_abJsonAssign : List (String × String) := [
+  ("Version", "ab.Version"),
+  ("ChainIdentifier", "ab.ChainIdentifier"),
+  ("BlockType", "ab.BlockType"),
+  ("Hash", "ab.Hash"),
+  ("PreviousHash", "ab.PreviousHash"),
+  ("Height", "ab.Height"),
+  ("MomentumAcknowledged", "ab.MomentumAcknowledged"),
+  ("Address", "ab.Address"),
+  ("ToAddress", "ab.ToAddress"),
+  ("Amount", "ab.Amount.String()"),
+  ("TokenStandard", "ab.TokenStandard"),
+  ("FromBlockHash", "ab.FromBlockHash"),
+  ("Data", "ab.Data"),
+  ("FusedPlasma", "ab.FusedPlasma"),
+  ("Difficulty", "ab.Difficulty"),
+  ("Nonce", "hex.EncodeToString(ab.Nonce.Data[:])"),
+  ("BasePlasma", "ab.BasePlasma"),
+  ("TotalPlasma", "ab.TotalPlasma"),
+  ("ChangesHash", "ab.ChangesHash"),
+  ("PublicKey", "ab.PublicKey"),
+  ("Signature", "ab.Signature")]
 
 end ZV.Codec
